@@ -31,3 +31,7 @@ CLAIMED["C03"] = (
  "table agreement lint over the wat2c template dispatcher (stack effects, union-view typing of every R<n>.<view>, C operator/libm/helper, signedness casts, shift masks, load/store widths, conversion cast chains)",
  "Decides, exhaustively over the instruction tokens, that each C template is typed consistently with the slots it pops/pushes and computes the mnemonic's operation with the mnemonic's signedness, width and operand order. Does not decide C trap behaviour (division, out-of-range conversions), NaN details, memory bounds, control flow or calls.",
  AST_BASE)
+CLAIMED["C01"] = (
+ "table agreement lint over the back end's operator/conversion lowering (formatter rows, kind signedness, token->OpCode->constructor chain, narrow-width mask must-pass-through, (src,dst) conversion matrix vs. Go semantics, constant materialisation bit sizes)",
+ "Decides the per-operator lowering tables of the WebAssembly back end for every (kind, operator) and (source kind, destination kind) pair: right mnemonic by type and signedness, masks for u8/u16 on every path, shift-count adaptation, conversions as Go defines them, constants parsed with their own width and signedness. Does not decide program behaviour: control flow, aggregates, strings, maps, interfaces, defer and the runtime library are outside these rules.",
+ AST_BASE)
